@@ -19,6 +19,8 @@ import (
 	"sync"
 	"time"
 
+	"github.com/benbjohnson/litestream"
+
 	"verif/harness/internal/oracle"
 	"verif/harness/internal/vf"
 
@@ -42,7 +44,7 @@ func init() {
 		Level: "exploration",
 		Rule: "inputs = real (db, WAL) pairs harvested from modernc SQLite workloads (8 page sizes; restarts leaving stale-generation tails; spilled uncommitted / rolled-back tails; auto_vacuum and incremental_vacuum shrinking commits) x seeded mutations of the WAL bytes " +
 			"{truncation at every frame boundary and inside headers/payloads, bit flips in WAL header / frame header fields / payload, frame duplication / insertion / swap / move, salt edits (header with and without header re-checksum, single frame, suffix, stale<->current), commit-field edits with and without re-checksumming the following chain, re-encoding to the other checksum byte order (alone and composed with the other classes), garbage / zero / torn tails, synthetic stale generations}; " +
-			"every input is decided against real SQLite recovery (copy without -shm, open, wal_checkpoint(TRUNCATE)) for each reader configuration: PageMap from the header, VerifPageMap chunked with budget {1 frame, 3 frames, 64 MiB} from the header, and NewWALReaderWithOffset from commit boundaries of the valid prefix with budget {0, 1 frame, 3 frames, 64 MiB}, chunks chained exactly as DB.sync does. " +
+			"every input is decided against real SQLite recovery (copy without -shm, open, wal_checkpoint(TRUNCATE)) for each reader configuration: PageMap from the header, VerifPageMap chunked with budget {1 frame, 3 frames, 64 MiB} from the header, and NewWALReaderWithOffset from commit boundaries of the valid prefix with budget {0, 1 frame, 3 frames, 64 MiB}, chunks chained exactly as DB.sync does; at each of those boundaries a reader resumed with the salts of another WAL generation must refuse or return nothing. " +
 			"one evaluation = one (input, reader configuration) image comparison (+ chunk-end and chunk-union tests). " +
 			"case 0 is a pinned demonstration input of the known finding forged-commit-size-breaks-writer-invariants. non-trivial input = committed prefix non-empty and (recovered image or committed prefix differs from the unmutated WAL's, or frames follow the last commit, or a forged commit size breaks the writer invariants); distinct = (base, mutation class, outcome class) over non-trivial inputs",
 		Assumptions: []string{
@@ -637,6 +639,23 @@ func (c *caseCtx) runMutant(j int, m mutant, wal []byte) {
 			res.Count("resume_offsets", 1)
 			for _, b := range all {
 				judge(fmt.Sprintf("resume-%s@%d", b.name, bd.Offset), lsReplicate(ctx, c.base.DB, wal, ps, bd.Offset, bd.Img, b.n, false, &c.imgBuf), nil)
+			}
+			// a position saved under another WAL generation (other salts) must not be continued
+			// inside this one: the frame in front of the offset carries this generation's salts
+			if wf && len(wal) >= 32 {
+				s1, s2 := be32(wal[16:])-1, be32(wal[20:])^0x5bd1e995
+				res.Evals++
+				res.Count("stale_salt_resumes", 1)
+				rd, err := litestream.NewWALReaderWithOffset(ctx, bytes.NewReader(wal), bd.Offset, s1, s2, discard)
+				if err != nil {
+					res.Count("stale_salt_resume_refused", 1)
+				} else if pm, end, commit, perr := rd.PageMap(ctx); perr == nil && len(pm) > 0 {
+					msg := fmt.Sprintf("a reader resumed at offset %d with the salts of another WAL generation (%08x/%08x, header has %08x/%08x) returns %d pages up to offset %d (commit %d) instead of refusing", bd.Offset, s1, s2, be32(wal[16:]), be32(wal[20:]), len(pm), end, commit)
+					d := c.saveWitness(j, m, wal, "stale-salts: "+msg)
+					res.Violate("stale-salt-resume-returns-frames", "%s: %s; input files: %s (base.db + mutant.wal)", tag, msg, d)
+				} else {
+					res.Count("stale_salt_resume_returned_nothing", 1)
+				}
 			}
 		}
 	}
